@@ -752,15 +752,24 @@ def r7_error_symmetry(ctx, prog):
     ctx.floor("C13-R7", n, 1, "err_int_flux computations interpreted")
 
 
-def r8_island_peak(ctx, prog):
+def r8_island_peak(ctx, prog, rule="C13-R8", polarity=False):
     """the island summary reports the same pixel for an island and for its
-    negation"""
+    negation (C13-R8); with polarity=True (C03-R18): the island row takes
+    its sign the way the component fit does -- negative only when NO pixel
+    of the island is positive -- so island and component rows agree"""
     from ..concrete import Unknown, ev, run
-    ctx.rule("C13-R8", "island summaries are sign symmetric: the statements "
-             "of result_to_components that pick the island's peak value and "
-             "its pixel are interpreted for a sample island and for its "
-             "negation; the peak value must negate and the pixel index must "
-             "be the same")
+    if polarity:
+        ctx.rule(rule, "island rows agree with component rows in polarity: "
+                 "the peak of the island summary is its largest pixel unless "
+                 "every pixel is negative (then the smallest) -- the test "
+                 "the component fit uses (isnegative = max < 0); interpreted "
+                 "for positive, negative and mixed-sign sample islands")
+    else:
+        ctx.rule(rule, "island summaries are sign symmetric: the statements "
+                 "of result_to_components that pick the island's peak value "
+                 "and its pixel are interpreted for a sample island and for "
+                 "its negation; the peak value must negate and the pixel "
+                 "index must be the same")
     fi = prog.func("source_finder.SourceFinder.result_to_components")
     body = [st for st in walk_no_nested(fi.node) if isinstance(st, ast.stmt)]
     # the thresholded pixel array and the island object
@@ -813,6 +822,38 @@ def r8_island_peak(ctx, prog):
                "negative island": [-1.0, -3.0, -2.5, float("nan")],
                "plateau": [2.0, 2.0, 1.0, float("nan")]}
     n = 0
+    if polarity:
+        nan = float("nan")
+        cases = {"positive island": ([1.0, 3.0, 2.5, nan], 1, 3.0),
+                 "negative island": ([-1.0, -3.0, -2.5, nan], 1, -3.0),
+                 "positive source touching a negative lobe":
+                     ([5.0, -1.0, 3.0, nan], 0, 5.0),
+                 "deep negative lobe beside a faint positive pixel":
+                     ([-5.0, 1.0, -3.0, nan], 1, 1.0)}
+        for name, (smp, widx, wpk) in cases.items():
+            try:
+                env = {karr: list(smp)}
+                run(stmts, env)
+                idx = ev(ast.parse("%s[0][0]" % pname, mode="eval").body,
+                         env)
+                pk = env.get("%s.peak_flux" % isl)
+            except Unknown as u:
+                raise AnalysisError("%s: island summary not interpreted "
+                                    "(%s)" % (rule, u))
+            n += 1
+            ctx.check(rule, fi, "%s %s: pixel %s peak %s" %
+                      (name, smp[:3], idx, pk),
+                      idx == widx and (pk is None or pk == wpk),
+                      "for the %s %s the island row reports pixel %s with "
+                      "peak %s; the component fit treats this island as %s "
+                      "(it is negative only when its largest pixel is "
+                      "negative), so the island row must report pixel %d "
+                      "with peak %s" %
+                      (name, smp[:3], idx, pk,
+                       "negative" if wpk < 0 else "positive", widx, wpk),
+                      node=pos[0])
+        ctx.floor(rule, n, 4, "sample islands interpreted")
+        return
     for name, smp in samples.items():
         res = []
         try:
@@ -823,14 +864,14 @@ def r8_island_peak(ctx, prog):
                          env)
                 res.append((idx, env.get("%s.peak_flux" % isl)))
         except Unknown as u:
-            ctx.unknown_site("C13-R8", fi, "peak look-up not interpreted "
+            ctx.unknown_site(rule, fi, "peak look-up not interpreted "
                              "(%s)" % u, node=pos[0])
             continue
         n += 1
         ok = res[0][0] == res[1][0] and (
             res[0][1] is None or res[1][1] is None or
             res[0][1] == -res[1][1])
-        ctx.check("C13-R8", fi, "%s: (pixel, peak) %s vs negated %s" %
+        ctx.check(rule, fi, "%s: (pixel, peak) %s vs negated %s" %
                   (name, res[0], res[1]), ok,
                   "for the %s the island summary picks pixel %s with peak "
                   "%s, for the negated island pixel %s with peak %s: the "
@@ -838,4 +879,4 @@ def r8_island_peak(ctx, prog):
                   "changes under negation" %
                   (name, res[0][0], res[0][1], res[1][0], res[1][1]),
                   node=pos[0])
-    ctx.floor("C13-R8", n, 2, "sample islands interpreted")
+    ctx.floor(rule, n, 2, "sample islands interpreted")
